@@ -580,7 +580,16 @@ func (fx *FuncCtx) val(st *State, v ssa.Value) *Val {
 
 func (fx *FuncCtx) funcRef(f *ssa.Function) string {
 	n := "fn$" + sanitize(f.String())
-	return fx.u.uf(n, "(declare-const "+n+" Int)")
+	if _, seen := fx.u.ufs[n]; !seen {
+		// different functions are different values (and none is the nil function)
+		decl := "(declare-const " + n + " Int)\n(assert (not (= " + n + " 0)))"
+		for _, o := range fx.u.fnRefs {
+			decl += "\n(assert (not (= " + n + " " + o + ")))"
+		}
+		fx.u.fnRefs = append(fx.u.fnRefs, n)
+		return fx.u.uf(n, decl)
+	}
+	return n
 }
 
 func deref(t types.Type) types.Type {
